@@ -707,7 +707,9 @@ func ruleC14Empty(c *Ctx) {
 
 // ---- DIRECTION -------------------------------------------------------------------------------
 
-func ruleC14Direction(c *Ctx, cts []cursorType) {
+func ruleC14Direction(c *Ctx, cts []cursorType) { ruleCursorDirection(c, cts, "C14.DIRECTION", "C14.DIRPARAM") }
+
+func ruleCursorDirection(c *Ctx, cts []cursorType, rule, paramRule string) {
 	p := c.P
 	first := p.ExtMethod(bboltPath, "Cursor", "First")
 	last := p.ExtMethod(bboltPath, "Cursor", "Last")
@@ -746,12 +748,19 @@ func ruleC14Direction(c *Ctx, cts []cursorType) {
 		return ""
 	}
 	// (1) per cursor type: constructor primitive and Next primitive agree
+	decidedDir := map[*ssa.Function]string{}
+	dirOf2 := func(ctor *ssa.Function) string {
+		if d, has := decidedDir[ctor]; has {
+			return d
+		}
+		return dirOf(ctor)
+	}
 	for _, fn := range c.prodFuncs("boltz") {
 		if fn.Parent() != nil || fn.Signature.Recv() != nil || !strings.HasPrefix(fn.Name(), "New") {
 			continue
 		}
 		d := dirOf(fn)
-		if d != "forward" && d != "reverse" {
+		if d != "forward" && d != "reverse" && d != "both" {
 			continue
 		}
 		// the type it builds
@@ -782,8 +791,91 @@ func ruleC14Direction(c *Ctx, cts []cursorType) {
 			}
 		}
 		construct := "boltz." + built.Obj().Name() + " built by " + fn.Name()
+		var flagOracle Oracle
+		if d == "both" {
+			// the direction kept as a flag in a field the constructor fills with a constant: the shared code is
+			// decided under that constant
+			consts := map[*types.Var]AV{}
+			for _, b := range fn.Blocks {
+				for _, in := range b.Instrs {
+					st, isSt := in.(*ssa.Store)
+					if !isSt {
+						continue
+					}
+					k, isK := st.Val.(*ssa.Const)
+					f, _ := fieldOfAddr(st.Addr)
+					if isK && k.Value != nil && f != nil && k.Value.Kind() == constant.Bool {
+						consts[f.Origin()] = avBool(constant.BoolVal(k.Value))
+					}
+				}
+			}
+			if len(consts) == 0 {
+				continue
+			}
+			flagOracle = func(v ssa.Value) (AV, bool) {
+				if f, _ := loadedField(v); f != nil {
+					if av, has := consts[f.Origin()]; has {
+						return av, true
+					}
+				}
+				if prm, isPrm := v.(*ssa.Parameter); isPrm {
+					return AV{Kind: "nonnil", Sym: "param:" + prm.Name()}, true
+				}
+				// the bolt cursor answers with some key
+				if call, isCall := v.(*ssa.Call); isCall {
+					if isCallTo(call, first) || isCallTo(call, last) || isCallTo(call, next) || isCallTo(call, prev) {
+						return AV{Kind: "tuple", Tup: []AV{{Kind: "nonnil", Sym: "key"}, {Kind: "nonnil", Sym: "val"}}}, true
+					}
+					if bi, isB := call.Call.Value.(*ssa.Builtin); isB && bi.Name() == "len" && len(call.Call.Args) == 1 {
+						x := call.Call.Args[0]
+						for i := 0; i < 4; i++ {
+							if phi, isPhi := x.(*ssa.Phi); isPhi && len(phi.Edges) > 0 {
+								x = phi.Edges[0]
+							}
+						}
+						if ex, isEx := x.(*ssa.Extract); isEx && ex.Index == 0 {
+							if src, isSrc := ex.Tuple.(*ssa.Call); isSrc && (isCallTo(src, first) || isCallTo(src, last) || isCallTo(src, next) || isCallTo(src, prev)) {
+								return avInt(5), true
+							}
+						}
+					}
+				}
+				return AV{}, false
+			}
+			evs, err := DecideCalls(fn, flagOracle, func(ci ssa.CallInstruction) bool { return isCallTo(ci, first) || isCallTo(ci, last) })
+			if err != "" || len(evs) != 1 {
+				continue // cannot be decided under the constants: as before, not a cursor this rule speaks about
+			}
+			if isCallTo(evs[0].Call, first) {
+				d = "forward"
+			} else {
+				d = "reverse"
+			}
+			decidedDir[fn] = d
+			if nextFn != nil {
+				nevs, nerr := DecideCalls(nextFn, flagOracle, func(ci ssa.CallInstruction) bool { return isCallTo(ci, next) || isCallTo(ci, prev) })
+				if nerr != "" {
+					continue
+				}
+				wrong := len(nevs) != 1
+				if !wrong {
+					wrong = (d == "forward") != isCallTo(nevs[0].Call, next)
+				}
+				if wrong {
+					c.Check(false, rule, construct, p.Pos(fn.Pos()), "", "under the direction flag its constructor sets, Next() does not step the bolt cursor exactly once in the direction the constructor positioned it for")
+					continue
+				}
+			}
+			if seekFn != nil {
+				bad := decideSeek(c, seekFn, nextFn, flagOracle, d == "forward")
+				c.Check(bad == "", rule, construct, p.Pos(fn.Pos()), d+" cursor (direction kept as a flag): constructor, Next and Seek decided under the flag's constant", bad)
+			} else {
+				c.OK(rule, construct, p.Pos(fn.Pos()), d+" cursor (direction kept as a flag): constructor and Next decided under the flag's constant")
+			}
+			continue
+		}
 		if nextFn == nil {
-			c.Undecided("C14.DIRECTION", construct, p.Pos(fn.Pos()), "no Next method found")
+			c.Undecided(rule, construct, p.Pos(fn.Pos()), "no Next method found")
 			continue
 		}
 		usesNext, usesPrev := false, false
@@ -867,8 +959,13 @@ func ruleC14Direction(c *Ctx, cts []cursorType) {
 					why = "forward Seek steps backwards"
 				}
 			}
+			if ok {
+				if bad := decideSeek(c, seekFn, nextFn, nil, true); bad != "" {
+					ok, why = false, bad
+				}
+			}
 		}
-		c.Check(ok, "C14.DIRECTION", construct, p.Pos(fn.Pos()), d+" cursor: constructor, Next and Seek use the matching bbolt primitives", why)
+		c.Check(ok, rule, construct, p.Pos(fn.Pos()), d+" cursor: constructor, Next and Seek use the matching bbolt primitives", why)
 	}
 	// (2) selection sites: under forward==true the forward constructor is chosen
 	for _, fn := range c.prodFuncs("boltz") {
@@ -906,13 +1003,13 @@ func ruleC14Direction(c *Ctx, cts []cursorType) {
 					if !isF || e.key.Kind() != constant.Bool {
 						continue
 					}
-					d := dirOf(ef)
+					d := dirOf2(ef)
 					if d != "forward" && d != "reverse" {
 						continue
 					}
 					key := constant.BoolVal(e.key)
 					c.Analysed(FnName(fn))
-					c.Check((key && d == "forward") || (!key && d == "reverse"), "C14.DIRECTION", FnName(fn)+" selects "+FnName(ef), p.Pos(lk.Pos()), "the "+d+" constructor is the table entry for that value of the direction flag", "the direction flag selects the opposite cursor kind: the table maps "+fmt.Sprint(key)+" to the "+d+" constructor")
+					c.Check((key && d == "forward") || (!key && d == "reverse"), rule, FnName(fn)+" selects "+FnName(ef), p.Pos(lk.Pos()), "the "+d+" constructor is the table entry for that value of the direction flag", "the direction flag selects the opposite cursor kind: the table maps "+fmt.Sprint(key)+" to the "+d+" constructor")
 				}
 			}
 		}
@@ -922,7 +1019,7 @@ func ruleC14Direction(c *Ctx, cts []cursorType) {
 			if len(ts) != 1 || ts[0].Signature.Recv() != nil {
 				continue
 			}
-			d := dirOf(ts[0])
+			d := dirOf2(ts[0])
 			if d != "forward" && d != "reverse" {
 				continue
 			}
@@ -934,7 +1031,7 @@ func ruleC14Direction(c *Ctx, cts []cursorType) {
 			construct := FnName(fn) + " selects " + FnName(ts[0])
 			c.Analysed(FnName(fn))
 			ok := (t && d == "forward") || (f && d == "reverse")
-			c.Check(ok, "C14.DIRECTION", construct, p.Pos(call.Pos()), "the "+d+" constructor is chosen exactly when the direction flag says so", "the direction flag selects the opposite cursor kind")
+			c.Check(ok, rule, construct, p.Pos(call.Pos()), "the "+d+" constructor is chosen exactly when the direction flag says so", "the direction flag selects the opposite cursor kind")
 		}
 	}
 	// (3) a function that hands out a set cursor and is told the direction uses what it is told: a direction
@@ -956,10 +1053,11 @@ func ruleC14Direction(c *Ctx, cts []cursorType) {
 				}
 			}
 			c.Analysed(FnName(fn))
-			c.Check(used, "C14.DIRECTION", FnName(fn)+": direction parameter "+prm.Name(), p.Pos(fn.Pos()), "the direction the caller asks for is looked at", "the function hands out a set cursor but never looks at its direction parameter "+prm.Name()+": a caller asking for the reverse cursor is served the forward one (ascending enumeration, Seek landing on the first element >= v)")
+			c.Check(used, paramRule, FnName(fn)+": direction parameter "+prm.Name(), p.Pos(fn.Pos()), "the direction the caller asks for is looked at", "the function hands out a set cursor but never looks at its direction parameter "+prm.Name()+": a caller asking for the reverse cursor is served the forward one (ascending enumeration, Seek landing on the first element >= v)")
 		}
 	}
-	c.Floor("C14.DIRECTION", 8)
+	c.Floor(rule, 8)
+	c.Floor(paramRule, 3)
 }
 
 // isSetCursorIface: an interface type with the set cursor's three methods.
@@ -1463,7 +1561,16 @@ func ruleC14DirCompare(c *Ctx) {
 // in which it does the wrong thing ("" when all are right or when the function cannot be evaluated — then the
 // structural checks above stand alone).
 func decideReverseSeek(c *Ctx, seekFn, nextFn *ssa.Function) string {
+	return decideSeek(c, seekFn, nextFn, nil, false)
+}
+
+// decideSeek runs a cursor's Seek for the three ways bbolt's Seek can answer.  A reverse cursor steps back in the
+// first two and only there; a forward cursor does not move again at all (bbolt's Seek already stands on the first
+// key >= target, or past the end).  extra answers loads the caller knows (a direction flag kept in a field).
+func decideSeek(c *Ctx, seekFn, nextFn *ssa.Function, extra Oracle, forward bool) string {
 	p := c.P
+	bnext := p.ExtMethod(bboltPath, "Cursor", "Next")
+	bfirst := p.ExtMethod(bboltPath, "Cursor", "First")
 	bseek := p.ExtMethod(bboltPath, "Cursor", "Seek")
 	prev := p.ExtMethod(bboltPath, "Cursor", "Prev")
 	last := p.ExtMethod(bboltPath, "Cursor", "Last")
@@ -1497,6 +1604,11 @@ func decideReverseSeek(c *Ctx, seekFn, nextFn *ssa.Function) string {
 		{"bbolt's Seek landed exactly on the target", false, 0, false},
 	} {
 		oracle := func(v ssa.Value) (AV, bool) {
+			if extra != nil {
+				if av, ok := extra(v); ok {
+					return av, true
+				}
+			}
 			call, isCall := v.(*ssa.Call)
 			if !isCall {
 				return AV{}, false
@@ -1532,11 +1644,20 @@ func decideReverseSeek(c *Ctx, seekFn, nextFn *ssa.Function) string {
 			if isCallTo(ci, prev) || isCallTo(ci, last) {
 				return true
 			}
+			if forward && (isCallTo(ci, bnext) || isCallTo(ci, bfirst)) {
+				return true
+			}
 			cal, _ := calleeOf(ci.Common())
 			return cal != nil && nextFn != nil && cal == nextFn.Object()
 		})
 		if err != "" {
 			return ""
+		}
+		if forward {
+			if len(evs) > 0 && !sc.keyNil {
+				return "when " + sc.what + " the forward Seek moves the bolt cursor again (" + describeInstr(evs[0].Call) + "): bbolt's Seek already stands on the first key >= target, so the element the Seek should land on is skipped (a Seek to a key that was just deleted — the cascade's re-seek — passes over the next referrer)"
+			}
+			continue
 		}
 		if sc.wantBack && len(evs) == 0 {
 			return "when " + sc.what + " the reverse Seek does not step back: the cursor must then stand on the greatest key not after the target (seeking past the end must land on the last element, not report exhaustion)"
